@@ -1263,6 +1263,11 @@ func (x *Exec) checkEnsures(fr *Frame, st *State, results []Val, pos token.Pos) 
 		return
 	}
 	for _, c := range fr.fc.Ensures {
+		if c.hasTag("assumed") {
+			// a ghost-channel clause: assumed at call sites, never proved; listed as an assumption
+			x.trusted["assumed post-condition (ghost channel semantics, not proved) of "+shortPkg(fr.fc.Pkg)+"."+fr.fc.Key+": "+c.Src] = true
+			continue
+		}
 		env := x.frameEnv(fr, st, token.NoPos)
 		env.post = true
 		env.results = results
